@@ -163,3 +163,28 @@ func mapName(site string) string {
 }
 
 type memKey uintptr
+
+// FR / FW: a struct field reached through a pointer is read / written at site.
+// The access is a scheduling point when the location is shared and feeds the
+// happens-before race detector; the field's address is returned.
+func FR[T any](p *T, site string) *T {
+	if sched.Current() != nil {
+		a := uintptr(unsafe.Pointer(p))
+		sched.PointOnRW(fieldKey(a), "field read", false)
+		sched.Access(a, mapName(site), site, false, p)
+		sched.Did(fieldKey(a), "r", false)
+	}
+	return p
+}
+
+func FW[T any](p *T, site string) *T {
+	if sched.Current() != nil {
+		a := uintptr(unsafe.Pointer(p))
+		sched.PointOnRW(fieldKey(a), "field write", true)
+		sched.Access(a, mapName(site), site, true, p)
+		sched.Did(fieldKey(a), "w", true)
+	}
+	return p
+}
+
+type fieldKey uintptr
